@@ -454,3 +454,28 @@ mod tests {
         assert_eq!(axes.as_slice(), [1]);
     }
 }
+
+/// Verification hooks (only with `--cfg rten_verif`): layout fast-path decision
+/// functions and a constructor for the `TransformInputs` fusion wrapper.
+#[cfg(rten_verif)]
+#[doc(hidden)]
+pub mod verif_ops {
+    use std::sync::Arc;
+
+    pub use super::binary_elementwise::{broadcast_shapes, fast_broadcast_cycles_repeats};
+    use crate::operator::Operator;
+
+    /// `TransformInputs` wrapping `inner`, permuting input `index` by `perm`
+    /// (`None` reverses the axes) before the inner operator runs.
+    pub fn transform_inputs_permute(
+        inner: Arc<dyn Operator + Send + Sync>,
+        index: usize,
+        perm: Option<Vec<usize>>,
+    ) -> Arc<dyn Operator + Send + Sync> {
+        Arc::new(
+            super::transform_inputs::TransformInputsBuilder::new()
+                .permute(index, perm)
+                .build(inner),
+        )
+    }
+}
